@@ -52,7 +52,7 @@ def w_tdmd(ctx, rng, idx):
     ctx.describe({'op': 'tdmd_exact/standard', 'dims': dims, 'snapshots': m, 'data': label, 'threshold': thr, 'ranks': x.ranks})
     call('tdmd.tdmd_exact', td.tdmd_exact, x, y, prop=P, refusals=(np.linalg.LinAlgError,), threshold=thr)
     call('tdmd.tdmd_standard', td.tdmd_standard, x, y, prop=P, refusals=(np.linalg.LinAlgError,), threshold=thr)
-    if idx % 3 == 0 and x.order >= 2:
+    if idx % 2 == 0 and x.order >= 2:
         # orthonormalisation flags off on input that already is in the required gauge (harness-side RQ of the last core)
         with probe.oracle():
             cores = [c.copy() for c in x.cores]
@@ -62,9 +62,21 @@ def w_tdmd(ctx, rng, idx):
             cores[-1] = q.T.reshape(k, mm, 1, 1)
             cores[-2] = np.tensordot(cores[-2], rr.T, axes=([3], [0]))
             xg = tt.TT(cores)
-        fl, fr = [(False, False), (False, True), (True, False)][int(rng.integers(0, 3))]
-        call('tdmd.tdmd_exact', td.tdmd_exact, xg, y, prop=P, refusals=(np.linalg.LinAlgError,), threshold=thr, ortho_l=fl, ortho_r=fr)
-        call('tdmd.tdmd_standard', td.tdmd_standard, xg, y, prop=P, refusals=(np.linalg.LinAlgError,), threshold=thr, ortho_l=fl, ortho_r=fr)
+            # a third representation: last core right-orthonormal, the spatial cores in a generic (non-orthonormal) gauge
+            cs = [c.copy() for c in cores]
+            for i in range(len(cs) - 2):
+                r2 = cs[i].shape[3]
+                g = rng.standard_normal((r2, r2)) + 2.0 * np.eye(r2)
+                cs[i] = np.tensordot(cs[i], g, axes=([3], [0]))
+                cs[i + 1] = np.tensordot(np.linalg.inv(g), cs[i + 1], axes=([1], [0]))
+            xr = tt.TT(cs)
+        # each sweep is switched off exactly where the input already is in that gauge - and ONLY there, so that the sweep that
+        # stays switched on has real work to do: (F,F) both gauges hold; (F,T) TT-SVD output: spatial cores left-orthonormal, last
+        # core carries the weights; (T,F) last core right-orthonormal, spatial cores generic
+        for (xx, fl, fr) in [(xg, False, False), (x, False, True), (xr, True, False)]:
+            if rng.random() < 0.7:
+                call('tdmd.tdmd_exact', td.tdmd_exact, xx, y, prop=P, refusals=(np.linalg.LinAlgError,), threshold=thr, ortho_l=fl, ortho_r=fr)
+                call('tdmd.tdmd_standard', td.tdmd_standard, xx, y, prop=P, refusals=(np.linalg.LinAlgError,), threshold=thr, ortho_l=fl, ortho_r=fr)
     if idx < 3:
         ctx.sample({'workload': 'tdmd', 'spatial_dims': dims, 'snapshots': m, 'data': label, 'threshold': thr, 'tt_ranks_of_x': x.ranks})
 
